@@ -109,11 +109,11 @@ Definition expr_wrapper {E : Type} (b : body E) : wres (option E) :=
   | (Raise v, _) => WPanic v
   end.
 
-(* ParseExprEx: err = p.errors (NOT sorted) *)
+(* ParseExprEx: p.errors.Sort(); err = p.errors  (the ErrorList itself instead of an error) *)
 Definition exprex_wrapper {E : Type} (b : body E) : wres (option E) :=
   match b [] with
-  | (Ret x, es) => WRet (Some x) es
-  | (Bailout, es) => WRet None es
+  | (Ret x, es) => WRet (Some x) (sort_errs es)
+  | (Bailout, es) => WRet None (sort_errs es)
   | (Raise v, _) => WPanic v
   end.
 
